@@ -45,7 +45,10 @@ def typed(cls, s):
 WORDSETS = [kitgen.CHAIN_WORDS, ["TTCA", "GGAC", "CATC", "AGCG", "CTAG"[::-1]], ["GCTT", "AATG", "TACT", "GGAG", "CGCT"]]
 
 
-def scenario_strings(t, fill, ph, k, variant=0):
+YTK_INNER = ["AACG" + t + "TATG" for t in ("", "A", "AC", "ACG", "ACGTCA")] + ["", "A", "AC", "ACGTA", "ACGTACG"]
+
+
+def scenario_strings(t, fill, ph, k, variant=0, ytk_inner=None):
     """-> (vector string, [module strings], [module target texts], vector cls, module cls) or None"""
     V = gen.class_by_name(t["vector"])
     Mc = gen.class_by_name(t["module"])
@@ -56,6 +59,9 @@ def scenario_strings(t, fill, ph, k, variant=0):
         vec = kitgen.build_vector(V, down, up, fill=fill, ph_len=ph, variant=variant)
         tmpl = gen.word(fill, 7, 6, kitgen.ALL_SITES)
         o5, o3 = "AACG", "TATG"
+        if ytk_inner is not None:
+            # whatever lies between the two spacer nucleotides, canonical (overhang + template + overhang) or not
+            o5, tmpl, o3 = "", ytk_inner, ""
         mod = kitgen.build_ytk_product("TC", o5, tmpl, o3, variant=variant)
         if vec is None or mod is None:
             return None
@@ -79,7 +85,7 @@ def scenario_strings(t, fill, ph, k, variant=0):
 
 def check(st, scn):
     t = kitgen.triple(scn["triple"])
-    built = scenario_strings(t, scn["fill"], scn["ph"], scn["k"], scn.get("variant", 0))
+    built = scenario_strings(t, scn["fill"], scn["ph"], scn["k"], scn.get("variant", 0), scn.get("ytk_inner"))
     if built is None:
         st.filtered += 1
         return None
@@ -94,6 +100,8 @@ def check(st, scn):
         if rv == 0:
             st.filtered += 1
             st.extra["level-inputs-rejected"] += 1
+            if scn.get("ytk_inner") is not None:
+                st.goal("ytk-product-with-degenerate-inner-rejected")
             return None
         st.violation("level", "vector-rejected-under-rotation", scn, "valid", "invalid")
         return None
@@ -119,7 +127,9 @@ def check(st, scn):
         return None
     ovs, ove, tgt = obs
     insert = "".join(targets)
-    if t["outer"] == "ytk":
+    if t["outer"] == "ytk" and scn.get("ytk_inner") is not None:
+        pass     # accepted as an entry: nothing more is asked of a product whose inner part is not overhang + template + overhang
+    elif t["outer"] == "ytk":
         # designed inner segment: type-specific overhang + template
         inner = targets[0][9: -7]
         if not tgt.upper().startswith("AACG") or inner.upper() not in tgt.upper() or ove.upper() != "TATG":
@@ -198,6 +208,14 @@ def run_unit(unit, st, tier):
             st.scenario("product-rotated", None, calls=3)
             st.nontrivial += 1
             st.goal("product-rotated")
+    if t["outer"] == "ytk":
+        # what lies between the spacers of a YTK product: canonical with templates of 0,1,2,3,6 nt, and short strings
+        for inner in YTK_INNER:
+            for rp in (0, 5):
+                scn = dict(triple=name, fill=fill, ph=ph, k=1, variant=variant, ytk_inner=inner, rot_product=rp)
+                check(st, scn)
+                st.scenario("ytk-inner", None, calls=3)
+                st.nontrivial += 1
     st.sample(dict(triple=name, fill=fill, ph=ph, k=2, rot_product=3))
 
 
@@ -208,7 +226,7 @@ TWO_LEVEL = {
 }
 
 
-def two_level(st, kit, n_entries, scn, cassette_rotation=0):
+def two_level(st, kit, n_entries, scn, cassette_rotation=0, cassette_ids=None):
     """entries -> two cassettes -> device"""
     d = TWO_LEVEL[kit]
     CV, E, C, DV = [gen.class_by_name(d[x]) for x in ("cassette_vector", "entry", "cassette", "device_vector")]
@@ -237,7 +255,8 @@ def two_level(st, kit, n_entries, scn, cassette_rotation=0):
                 return None
             mods.append(E(CircularRecord(Seq(m), id="e%d%d" % (ci, i))))
             ins += chain[i] + body
-        o = asm.run_assemble(CV(CircularRecord(Seq(cv), id="cv%d" % ci)), mods, id="cas%d" % ci, name="cas%d" % ci)
+        cid = cassette_ids[ci] if cassette_ids else "cas%d" % ci
+        o = asm.run_assemble(CV(CircularRecord(Seq(cv), id="cv%d" % ci)), mods, id=cid, name=cid)
         if o.kind != "product":
             st.violation("two-level", "cassette-assembly-fails-" + str(o.exc_name), scn, "product", o.brief())
             return None
